@@ -79,7 +79,7 @@ def auto_discharge(site, fn, T, panic_abort):
         g = _guarded_index(fn, T, site.bb, site.terms[0], site.terms[1])
         if g:
             return g
-    if site.kind == "index":
+    if site.kind == "index" and t["k"] == "call":
         ga = t["f"].get("ga", [])
         if ga and fn.ty(ga[0]).s.startswith("vise::wrappers::Family<"):
             return "vise metrics Family index is get-or-create (never panics)"
@@ -1059,11 +1059,68 @@ def match_table(ctx, rule, sites, table, panic_abort, prop_label, closure=None):
             still_new.append(s)     # a recorded finding: reported under its own key, never re-matched as 'moved'
         else:
             new_by[loose(s.key)].append(s)
+    second = []
     for lk, ss in new_by.items():
         ms = miss_by.get(lk, [])
         if len(ss) <= len(ms):
             for s in ss:
                 ctx.ob(rule, "site %s (moved)" % s.key, True, "re-matched as moved from a tabled site with the same crate/kind/callee/operand", s.loc())
+            del ms[:len(ss)]
+        else:
+            second += ss
+    # second pass, within one function: a reviewed site of that function is gone and a new one of the same class took its
+    # place - a reworded assertion (`assert!(id <= MASK)` -> `assert!(id & !MASK == 0)`), or `seq.get(i).unwrap()` written
+    # as `seq[i]` (and back). The count per function and class does not grow.
+    def klass(key):
+        q = [x.strip() for x in key.split("|")]
+        if len(q) < 5:
+            return tuple(q)
+        kind = q[2]
+        if kind == "panic":
+            return (q[0], q[1], "panic", (q[4].split(" ", 1)[0] if q[4] else ""))
+        if kind in ("unwrap", "index"):
+            return (q[0], q[1], "access")
+        return (q[0], q[1], kind, q[3], q[4])
+    rest = defaultdict(list)
+    for ms in miss_by.values():
+        for e in ms:
+            rest[klass(e["key"])].append(e)
+    by2 = defaultdict(list)
+    for s in second:
+        by2[klass(s.key)].append(s)
+    third = []
+    for kk, ss in by2.items():
+        ms = rest.get(kk, [])
+        if kk[2] in ("panic", "access") and len(ss) <= len(ms):
+            for s in ss:
+                ctx.ob(rule, "site %s (rewritten)" % s.key, True, "re-matched: a reviewed %s site of the same function is gone and this one took its place (count not increased)" % ("assertion / explicit panic" if kk[2] == "panic" else "element access"), s.loc())
+            del ms[:len(ss)]
+        else:
+            third += ss
+    # third pass: an assertion that moved into a sibling method of the same type and was reworded on the way
+    def klass3(key):
+        q = [x.strip() for x in key.split("|")]
+        if len(q) >= 5 and q[2] == "panic":
+            return (q[0], q[1].rsplit("::", 1)[0], "panic", (q[4].split(" ", 1)[0] if q[4] else ""))
+        return None
+    rest3 = defaultdict(list)
+    for ms in rest.values():
+        for e in ms:
+            k3 = klass3(e["key"])
+            if k3 is not None:
+                rest3[k3].append(e)
+    by3 = defaultdict(list)
+    for s in third:
+        k3 = klass3(s.key)
+        if k3 is None:
+            still_new.append(s)
+        else:
+            by3[k3].append(s)
+    for k3, ss in by3.items():
+        ms = rest3.get(k3, [])
+        if len(ss) <= len(ms):
+            for s in ss:
+                ctx.ob(rule, "site %s (rewritten, moved within its type)" % s.key, True, "re-matched: a reviewed assertion of the same kind in a sibling method of this type is gone and this one took its place", s.loc())
         else:
             still_new += ss
     for s in still_new:
